@@ -337,6 +337,9 @@ def coordpos_jobs(repo):
          [("self.1", "ls")], [], cp_opts(state_calls=cp_call("lineStringCalc"))),
         (cp_header("MultiPolygon"), "multiPolygonCalc", "(ps : List Poly) (coord : Pt) " + acc, "PosAcc", {},
          [("self.1", "ps")], [], cp_opts(state_calls=cp_call("polygonCalc"), mut_types={"member_boundary_count": "Nat"})),
+        # `for geometry in self`: the members, each through the `Geometry` enum — the recursive call is the parameter `calcFn`
+        (cp_header("GeometryCollection"), "geometryCollectionCalc", "(calcFn : Geom → Pt → PosAcc → PosAcc) (gs : List Geom) (coord : Pt) " + acc,
+         "PosAcc", {}, [("self", "gs")], [], cp_opts(state_calls=cp_call("calcFn"))),
         # the provided trait method; `self.calculate_coordinate_position` is the parameter `calcFn`
         (r"fn coordinate_position\(&self, coord: &Coord<Self::Scalar>\) -> CoordPos \{",
          "coordinatePosition", "(calcFn : Pt → PosAcc → PosAcc) (coord : Pt)", "Pos", {}, [], [(r"\(calcFn self coord", "(calcFn coord")],
@@ -412,6 +415,21 @@ def dims_jobs():
          # `Ord::max` on the derive(Ord) enum = the later declared variant
          {".max": "(Dim.max {0} {1})"}, [("self", "ps")], [],
          dict(D, accessors={"dimensions": "(polygonDimensions {})"}, mut_types={"max": "Dim"})),
+        (DIMS, dim_hdr("CoordNum", "MultiPolygon", "boundary_dimensions", "Dimensions"), "multiPolygonBoundaryDimensions", "(ps : List Poly)", "Dim",
+         {}, [("self", "ps")], [], dict(D, accessors={"dimensions": "(multiPolygonDimensions {})"})),
+        (DIMS, dim_hdr("CoordNum", "MultiPoint", "is_empty", "bool"), "multiPointIsEmpty", "(ps : List Pt)", "Bool", {},
+         [("self.1", "ps")], [], dict(B, accessors=VEC_ACC)),
+        (DIMS, dim_hdr("CoordNum", "MultiPoint", "dimensions", "Dimensions"), "multiPointDimensions", "(ps : List Pt)", "Dim", {},
+         [("self.1", "ps")], [], dict(D, accessors=VEC_ACC)),
+        # `self.iter().all(LineString::is_empty)`: a method path used as a function
+        (DIMS, dim_hdr("CoordNum", "MultiLineString", "is_empty", "bool"), "multiLineStringIsEmpty", "(ls : List (List Pt))", "Bool",
+         {".all": "({0}.all {1})"}, [("self", "ls")], [], dict(B, accessors={"iter": "{}"}, paths={"LineString::is_empty": "lineStringIsEmpty"})),
+        (DIMS, dim_hdr("CoordNum", "MultiPolygon", "is_empty", "bool"), "multiPolygonIsEmpty", "(ps : List Poly)", "Bool",
+         {".all": "({0}.all {1})"}, [("self", "ps")], [], dict(B, accessors={"iter": "{}"}, paths={"Polygon::is_empty": "polygonIsEmpty"})),
+        # `for geom in self`: the members through the `Geometry` enum — `geom.dimensions()` is the parameter `dimsFn`
+        (DIMS, dim_hdr("GeoNum", "GeometryCollection", "dimensions", "Dimensions"), "geometryCollectionDimensions",
+         "(dimsFn : Geom → Dim) (gs : List Geom)", "Dim", {".max": "(Dim.max {0} {1})"}, [("self", "gs")], [],
+         dict(D, accessors={"dimensions": "(dimsFn {})"}, mut_types={"max": "Dim"})),
         (DIMS, dim_hdr("CoordNum", "Rect", "dimensions", "Dimensions"), "rectDimensions", "(mn mx : Pt)", "Dim", {},
          [("self.min", "mn"), ("self.max", "mx")], [], dict(D, accessors={"min": "{}.min", "max": "{}.max"})),
         (DIMS, dim_hdr("CoordNum", "Rect", "boundary_dimensions", "Dimensions"), "rectBoundaryDimensions", "(mn mx : Pt)", "Dim", {},
@@ -434,7 +452,7 @@ def dims_functions(repo, outdir):
         if rel not in cache:
             cache[rel] = strip_comments(open(os.path.join(repo, rel)).read())
         try:
-            term = rsexpr.translate_fn(cache[rel], hdr, DIM_PATHS, funcs, subst, resub=resub, opts=opts)
+            term = rsexpr.translate_fn(cache[rel], hdr, dict(DIM_PATHS, **opts.get("paths", {})), funcs, subst, resub=resub, opts=opts)
         except rsexpr.TranslateError as e:
             die("%s (%s): %s" % (name, rel, e))
         out.append("/-- `%s` — %s -/" % (name, rel))
